@@ -63,6 +63,25 @@ TEXT = {
                    "within 1e+-290; offset/logarithmic units excluded by the statement; bare number to "
                    "prefixed/powered radians left open.",
         design_ref="4 (C04)"),
+    "C20": dict(
+        technique="deterministic simulation with fault injection: seeded operation histories (including "
+                  "failing operations) on live table / collector objects against dict and list-of-rows "
+                  "models; exhaustive small-range enumeration for the two stateless clauses",
+        level_text="Exploration of seeded histories: one real ParameterTable (keyed or list mode) or "
+                   "RowCollector (list mode, array mode with typed columns, columns defined by the first "
+                   "dict) per run, driven by append / overwrite / delete / lookups by key, position and "
+                   "attribute / sort (with ties, reverse) and by operations that must fail (missing key, "
+                   "position out of range, unknown column) and leave the object unchanged. Every public "
+                   "accessor is compared with the model after every step; after sort the column must be "
+                   "monotone and the multiset of rows unchanged. The grid and combination clauses are "
+                   "stateless and are enumerated exhaustively (n <= 40, columns <= 8, both orders, list "
+                   "and dict data; all shapes of <= 3 lists of <= 3 items) - that part is plain "
+                   "enumeration and is labelled so in the evidence.",
+        level_note="Keys are identifier-like strings that are not attribute names of the class; columns "
+                   "are homogeneously typed (int, float without NaN, str, bool) or int-with-None (never "
+                   "the sort column): mixed str/number columns are outside what the statement's rows can "
+                   "mean once NumPy coerces them.",
+        design_ref="4 (C20)"),
 }
 
 NOT_APPLICABLE = {
@@ -93,5 +112,4 @@ PENDING = {
     "C14": "planned (dipstore machine) - not built yet in this commit",
     "C16": "planned (dipstore machine) - not built yet in this commit",
     "C17": "planned (dipstore machine) - not built yet in this commit",
-    "C20": "planned (helpers machine) - not built yet in this commit",
 }
